@@ -463,6 +463,16 @@ def _run_W(case):
             want = sorted(tasks[ti].name for ti, (w_, _, _, _) in where.items() if w_ == wi)
             if placed != want:
                 V.vio("placed_set", f"{tag}: {w.name} get_placed_tasks {placed}, reference {want}")
+        # the pool's own view (WorkerPool.resources) is the sum of its workers' ledgers, after every operation
+        pr = pool.resources
+        for t in sorted({t for v_ in vecs for t, _, _ in v_}):
+            rt_ = Resource(name=t, _id="any")
+            a_p, al_p = pr.get_available_quantity(rt_), pr.get_allocated_quantity(rt_)
+            a_w = sum(w.resources.get_available_quantity(rt_) for w in ws)
+            al_w = sum(w.resources.get_allocated_quantity(rt_) for w in ws)
+            if (a_p, al_p) != (a_w, al_w):
+                V.vio("pool_view_differs", f"{tag}: pool.resources reports {t} available {a_p} / allocated {al_p}, "
+                      f"its workers sum to {a_w} / {al_w}", {"more_available": a_p > a_w})
         if not where and not loaded:
             for wi, w in enumerate(ws):
                 for t, i, q in vecs[wi]:
